@@ -127,6 +127,13 @@ def minmax_form(t):
         return t[1][1], frozenset(t[2])
     if t[0] == "ite" and t[1][0] == "cmp" and t[1][1] in ("lt", "le"):
         lo, hi = t[1][2], t[1][3]  # condition: lo < hi
+
+        def under(x, holds):
+            """a redundant min / max of the compared pair inside a branch: its value on that branch"""
+            if x[0] == "call" and x[1] in (("builtin", "min"), ("builtin", "max")) and len(x[2]) == 2 and not x[3] and set(x[2]) == {lo, hi}:
+                return (lo if holds else hi) if x[1][1] == "min" else (hi if holds else lo)
+            return x
+        t = ("ite", t[1], under(t[2], True), under(t[3], False))
         if (t[2], t[3]) == (lo, hi):
             return "min", frozenset((lo, hi))
         if (t[2], t[3]) == (hi, lo):
